@@ -126,6 +126,7 @@ type paramsSpec struct {
 type csOp struct {
 	Kind     string      `json:"kind"` // add | remove | adduni | removeuni | swap | send | params | block | reimport
 	Who      int         `json:"who"`
+	PadTo    bool        `json:"pad_to,omitempty"`   // swap: a blank follows the recipient's address (refusing that spelling is fine; an accepted order pays the account named)
 	UpperTo  bool        `json:"upper_to,omitempty"` // swap: the recipient's address is written in upper case (bech32 allows it); not combined with blocked recipients, see DESIGN §9.3 F28
 	To       string      `json:"to,omitempty"`       // swap recipient / send target: self | uN | blockedN | pool:<denom> | next | mod
 	Pool     string      `json:"pool,omitempty"`     // counterparty denom naming the pool
@@ -716,6 +717,7 @@ func (m *csMachine) genSwap(t *rapid.T, live []*poolInfo) csOp {
 		}
 		op.To = m.genRecipient(t, op.Who, op.Out != std)
 		op.UpperTo = !strings.HasPrefix(op.To, "blocked") && rapid.IntRange(0, 1<<20).Draw(t, "upper-to")%8 == 7
+		op.PadTo = !strings.HasPrefix(op.To, "blocked") && op.To != "self" && rapid.IntRange(0, 1<<20).Draw(t, "pad-to")%12 == 11
 		return op
 	}
 	bal := func(d string) *big.Int { return cell(m.sheet, m.user(op.Who), d) }
@@ -750,6 +752,7 @@ func (m *csMachine) genSwap(t *rapid.T, live []*poolInfo) csOp {
 		}
 		op.To = m.genRecipient(t, op.Who, false)
 		op.UpperTo = !strings.HasPrefix(op.To, "blocked") && rapid.IntRange(0, 1<<20).Draw(t, "upper-to")%8 == 7
+		op.PadTo = !strings.HasPrefix(op.To, "blocked") && op.To != "self" && rapid.IntRange(0, 1<<20).Draw(t, "pad-to")%12 == 11
 		return op
 	}
 	i := rapid.IntRange(0, len(live)-1).Draw(t, "p1")
@@ -783,6 +786,7 @@ func (m *csMachine) genSwap(t *rapid.T, live []*poolInfo) csOp {
 	}
 	op.To = m.genRecipient(t, op.Who, true)
 	op.UpperTo = !strings.HasPrefix(op.To, "blocked") && rapid.IntRange(0, 1<<20).Draw(t, "upper-to")%8 == 7
+	op.PadTo = !strings.HasPrefix(op.To, "blocked") && op.To != "self" && rapid.IntRange(0, 1<<20).Draw(t, "pad-to")%12 == 11
 	return op
 }
 
@@ -934,6 +938,9 @@ func (m *csMachine) build(op csOp, loosened bool) sdk.Msg {
 		to := rcpt.String()
 		if op.UpperTo {
 			to = strings.ToUpper(to)
+		}
+		if op.PadTo {
+			to += " "
 		}
 		return &cstypes.MsgSwapOrder{Input: cstypes.Input{Address: sender.String(), Coin: coin(op.In, in)},
 			Output: cstypes.Output{Address: to, Coin: coin(op.Out, out)}, Deadline: deadline, IsBuyOrder: op.Buy}
@@ -1605,6 +1612,10 @@ func (m *csMachine) probeRejection(op csOp, orig chain.Result) error {
 	if op.Kind == "swap" {
 		if _, blocked := m.resolve(op.To, op.Who); blocked {
 			m.cnt["blocked-recipient-rejected"]++
+			return nil
+		}
+		if op.PadTo {
+			m.cnt["padded-recipient-rejected"]++
 			return nil
 		}
 	}
